@@ -12,6 +12,7 @@ import (
 	"bytes"
 	"context"
 	"fmt"
+	"os"
 	"regexp"
 	"runtime"
 	"sort"
@@ -145,7 +146,9 @@ func (ct *controller) start(id int, kind string, script *execScript, f func(c *c
 		close(ready)
 		defer func() {
 			if r := recover(); r != nil {
-				ct.emit(fmt.Sprintf("(OPanic %q%%string)", fmt.Sprint(r)))
+				// the panic text itself is kept out of the Gallina term (quoting)
+				fmt.Fprintln(os.Stderr, "scheduler panicked:", r)
+				ct.emit("(OPanic \"panic\"%string)")
 			}
 			ct.mu.Lock()
 			c.returned = true
